@@ -266,11 +266,74 @@ func checkC04(w *World, r *Run) {
 	checkC04Calc(w, r, ruleCalc)
 	checkC04Validate(w, r, ruleVal)
 	checkC04Multipart(w, r, ruleMP)
+	checkC04AppendRow(w, r)
 	checkChecksumUtils(w, r, "C04")
 	r.NotCovered("the digest values themselves (that md5/crc/sha of the bytes equal the strings recorded); the chunking independence of the parallel hash writer beyond flush-before-sum; ETag '-N' arithmetic for appended objects over arbitrary histories; what wrapped remote storages (S3 client) do with the checksums")
 }
 
 func firstInstr(b *ssa.BasicBlock) ssa.Instruction { return b.Instrs[0] }
+
+// checkC04AppendRow: the in-place append rewrites ETag and Size of the existing row; the
+// whole-content checksum columns of that row describe the content before the append and
+// must not survive it.
+func checkC04AppendRow(w *World, r *Run) {
+	rule := r.Rule("appended-row-carries-no-stale-checksums", "F9",
+		"the row sqlMetadataStore.AppendObject writes back for an in-place append takes none of ChecksumCRC32/CRC32C/CRC64NVME/SHA1/SHA256 from the row it read (they describe the content before the append)", 1)
+	fn := w.SSAFunc(relSQLStore, "sqlMetadataStore.AppendObject")
+	if fn == nil {
+		r.Anchor(rule, "sqlMetadataStore.AppendObject")
+		return
+	}
+	var cas *ssa.Call
+	allInstrs(fn, false, func(_ *ssa.Function, ins ssa.Instruction) {
+		if c, ok := ins.(*ssa.Call); ok && isCallNamed(c, "UpdateObjectByIdAndOptimisticLockVersion") {
+			cas = c
+		}
+	})
+	if cas == nil {
+		r.Anchor(rule, "sqlMetadataStore.AppendObject → UpdateObjectByIdAndOptimisticLockVersion")
+		return
+	}
+	ent, ok := stripConv(cas.Call.Args[len(cas.Call.Args)-2]).(*ssa.Alloc)
+	if !ok {
+		// the loaded row itself is written back: all its columns survive
+		r.Bad(rule, "AppendObject in-place row", posOf(cas), "the row that was read is written back as a whole: its checksum columns still describe the content before the append")
+		return
+	}
+	isRow := func(x ssa.Value) bool { return isCallNamed(x, "FindObjectByBucketNameAndKey") }
+	wholeFromRow := false
+	for _, v := range storesTo(ent) {
+		// a whole-struct copy *oldRow (not a literal whose fields merely mention the row)
+		if ld, ok := stripConv(v).(*ssa.UnOp); ok && ld.Op == token.MUL {
+			if _, isLit := ld.X.(*ssa.Alloc); !isLit && sliceContains(ld.X, false, isRow) {
+				wholeFromRow = true
+			}
+		}
+	}
+	stale := ""
+	for name := range checksumFieldNames {
+		if name == "ETag" {
+			continue
+		}
+		overwritten, fromRow := false, false
+		for _, ref := range *ent.Referrers() {
+			fa, ok := ref.(*ssa.FieldAddr)
+			if !ok || fieldName(fa.X.Type(), fa.Field) != name {
+				continue
+			}
+			for _, v := range storesTo(fa) {
+				overwritten = true
+				if sliceContains(v, false, isRow) {
+					fromRow = true
+				}
+			}
+		}
+		if fromRow || (wholeFromRow && !overwritten) {
+			stale = name
+		}
+	}
+	r.Check(stale == "", rule, "AppendObject in-place row", posOf(cas), "checksum columns are not inherited from the previous row", "the appended row keeps "+stale+" of the row it read: HEAD/GET keep reporting the checksum of the content before the append")
+}
 
 func allReturnsFail(fn *ssa.Function) bool {
 	rets := returnsOf(fn)
